@@ -1,6 +1,6 @@
 """C20 — normalised spectra are relative to the optimised setup; optimising is idempotent.
 
-S3: Props/C20.v over Model/Config.v (try_as_optimum, faithful to the old-poling / old-idler quirks) and Model/Spectrum.v.
+S3: Props/C20.v over Model/Config.v (try_as_optimum, faithful to the old-poling / old-idler quirks) and Model/NormSpectrum.v.
     Findings/C20_old_idler.v (refuted unconditional idempotence) built separately.
 S4: the model of try_as_optimum is run (vm_compute, Q instance) on recorded oracle answers for the first and the second
     optimisation of every setup; outcome and every field must agree with SPDC::try_as_optimum.
